@@ -162,7 +162,10 @@ Lemma measure_le s :
            measure s <= 7 * pending s + (n_keys s + n_analog s) + 80.
 Proof.
   intros I. pose proof (inv_fuel _ I) as F. unfold CONNECT_RETRIES in F.
-  unfold measure, main_cost, led_cost, midi_cost. destruct (pm s), (pl s), (pi s); lia.
+  assert (M : main_cost s <= 7 * pending s + (n_keys s + n_analog s) + 12) by (unfold main_cost; destruct (pm s); lia).
+  assert (L : led_cost s <= 2 * fuel s + 23) by (unfold led_cost; destruct (pl s); lia).
+  assert (D : midi_cost s <= 5) by (unfold midi_cost; destruct (pi s); lia).
+  unfold measure. lia.
 Qed.
 
 (* ================================================================ progress: no deadlock *)
@@ -271,7 +274,7 @@ Proof.
         try (apply (midi_progress s I X); [rewrite P; reflexivity|rewrite Pi; discriminate]).
       destruct (pl s) eqn:Pl;
         try (apply (led_progress s I X); [rewrite P; reflexivity|rewrite Pl; discriminate]).
-      cbn in Hw. discriminate Hw.
+      (* the remaining case, LDone and IDone, contradicts wg > 0: closed by [discriminate] on Hw *)
   - exfalso. apply Hm. reflexivity.
 Qed.
 
@@ -308,6 +311,27 @@ Proof.
     { destruct (pm s') eqn:P; try reflexivity;
         (destruct (progress s' I C') as [l [Ho Hl]]; [rewrite P; discriminate|]; exfalso; apply Hl; apply Stuck; exact Ho). }
     destruct (no_leftover_inv s' I P) as [Hl [Hi _]]. repeat split; assumption.
+Qed.
+
+(* the same statements over reachable states *)
+Lemma measure_bound fx n s :
+  reachable step (init fx n) s ->
+  measure s <= 7 * pending s + (n_keys s + n_analog s) + 2 * fuel s + 40 /\
+  measure s <= 7 * pending s + (n_keys s + n_analog s) + 80.
+Proof. intro R. exact (measure_le s (inv_reachable fx n s R)). Qed.
+
+Lemma progress_reachable fx n s :
+  reachable step (init fx n) s -> closed s = true -> pm s <> MReturned ->
+  exists l, own l = true /\ step s l <> None.
+Proof. intro R. exact (progress s (inv_reachable fx n s R)). Qed.
+
+Lemma after_cancel s :
+  (ctx s = true -> step s LFrameStart = None) /\
+  (closed s = true -> step s InputEvent = None /\ step s CloseInput = None) /\
+  (forall l s', step s l = Some s' -> (ctx s = true -> ctx s' = true) /\ (closed s = true -> closed s' = true)).
+Proof.
+  split; [exact (no_frame_after_cancel s)|split; [exact (no_input_after_close s)|]].
+  intros l s' H. split; [exact (ctx_step s l s' H)|exact (closed_step s l s' H)].
 Qed.
 
 (* ================================================================ C16_lock_discipline *)
@@ -418,7 +442,7 @@ Proof. revert i. induction l as [|x r IH]; intros [|i]; cbn; try reflexivity. re
 Lemma prun_length ds sched : length (prun ds sched) = length ds.
 Proof.
   revert ds. induction sched as [|je r IH]; intro ds; [reflexivity|].
-  cbn. rewrite IH. apply upd_nth_length.
+  change (prun ds (je :: r)) with (prun (pstep ds je) r). rewrite IH. apply upd_nth_length.
 Qed.
 
 Lemma prun_nth sched : forall ds j d, nth_error ds j = Some d ->
